@@ -78,7 +78,9 @@ def stepLine (s : St) (line : String) : St × String :=
   | "cmp" :: ws => (s, cmpLine s ws)
   | "cmpn" :: ws => (s, cmpnLine s ws)
   | ["both", depth, bt, bn, ct, cn, payload] =>
-    (s, valLine s.base depth bt bn payload ++ " | " ++ valLine s.new depth ct cn payload)
+    let a := valLine s.base depth bt bn payload
+    let b := valLine s.new depth ct cn payload
+    (s, if a = "bad-op" ∨ b = "bad-op" then "bad-op" else a ++ " | " ++ b)
   | _ => (s, "bad-op")
 
 def main : IO Unit := run stepLine ⟨none, none⟩
